@@ -71,7 +71,11 @@ Definition hexj (b : bytes) : json := JStr (bytes_hex b).
 Definition sig_abs (s : asig) : json :=
   JArr (map jn [a_model s; a_pos s; a_node s; a_attn s; a_id s; a_inst s; a_bit s]).
 
+Definition is_hw (cmd : text) : bool :=
+  match cmd with 104 :: 119 :: 95 :: _ => true | _ => false end.       (* "hw_": the chip data is decoded for these commands only *)
+
 Definition run_hw (cmd : text) (args : list bytes) : option text :=
+  if negb (is_hw cmd) then None else
   let cd := cd_arg (arg 0 args) in
   (* ---- model ---- *)
   if is_cmd cmd (L "hw_cd") then
